@@ -1,5 +1,5 @@
-(* CODE AS IS (finding F1): token before flag in SyncBlocker::unpark; `release` is set also
-   in the cancel-disabled branch, after which the waiter keeps waiting.
+(* VARIANT 1 (insufficient repair of F1): no `release` in the cancel-disabled branch, but
+   SyncBlocker::unpark still wakes the blocker BEFORE storing `unparked` (as in the code).
    Prototype: may::sync::Mutex::{lock,unlock} + SyncBlocker handshake + Blocker-token spec,
    candidate repair of F1 (flag-before-token in SyncBlocker::unpark; no `release` in the
    cancel-disabled branch).  Unbounded actors and blockers.  Throw-away design prototype. *)
@@ -78,7 +78,7 @@ Definition step (s : st) (ac : action) : option st :=
       | H2 => Some (mk (cnt s) (q s) (nextb s) (upd (A s) a (set_pc x H3))
                      (upd (Bk s) (aw x) {| tok := true; parked := parked w;
                                            reason := (if parked w then match reason w with None => Some RU | r => r end else reason w);
-                                           unp := unp w; rel := rel w; owner := owner w; ag := ag w |})
+                                           unp := unp w; rel := rel w; owner := owner w; ag := a |})
                      (HB (aw x)) (ent s))
       | H3 => Some (mk (cnt s) (q s) (nextb s) (upd (A s) a (set_pc x H4))
                      (upd (Bk s) (aw x) {| tok := tok w; parked := parked w; reason := reason w; unp := true; rel := rel w; owner := owner w; ag := ag w |})
@@ -118,19 +118,21 @@ Definition step (s : st) (ac : action) : option st :=
                     else Some (mk (cnt s) (q s) (nextb s)
                            (upd (A s) a {| apc := U0; ab := ab x; aw := aw x; actx := RExit; afor := a; aign := aign x; acanc := acanc x |})
                            (Bk s) (HA a) (ent s)))
-              else Some (mk (cnt s) (q s) (nextb s) (upd (A s) a (set_pc x C2)) (Bk s) (holder s) (ent s))
+              else (if aign x
+                    then Some (mk (cnt s) (q s) (nextb s) (upd (A s) a (set_pc x P)) (Bk s) (holder s) (ent s))
+                    else Some (mk (cnt s) (q s) (nextb s) (upd (A s) a (set_pc x C2)) (Bk s) (holder s) (ent s)))
       | C2 => Some (mk (cnt s) (q s) (nextb s) (upd (A s) a (set_pc x C3))
                      (upd (Bk s) (ab x) {| tok := tok b; parked := parked b; reason := reason b; unp := unp b; rel := true; owner := owner b; ag := ag b |})
                      (holder s) (ent s))
       | C3 => if unp b
               then Some (mk (cnt s) (q s) (nextb s) (upd (A s) a (set_pc x C4)) (Bk s) (holder s) (ent s))
-              else Some (mk (cnt s) (q s) (nextb s) (upd (A s) a (set_pc x (if aign x then P else Exit))) (Bk s) (holder s) (ent s))
+              else Some (mk (cnt s) (q s) (nextb s) (upd (A s) a (set_pc x Exit)) (Bk s) (holder s) (ent s))
       | C4 => if rel b
               then Some (mk (cnt s) (q s) (nextb s)
-                     (upd (A s) a {| apc := (if aign x then CS else U0); ab := ab x; aw := aw x; actx := RExit; afor := a; aign := aign x; acanc := acanc x |})
+                     (upd (A s) a {| apc := U0; ab := ab x; aw := aw x; actx := RExit; afor := a; aign := aign x; acanc := acanc x |})
                      (upd (Bk s) (ab x) {| tok := tok b; parked := parked b; reason := reason b; unp := unp b; rel := false; owner := owner b; ag := ag b |})
                      (HA a) (ent s))
-              else Some (mk (cnt s) (q s) (nextb s) (upd (A s) a (set_pc x (if aign x then P else Exit))) (Bk s) (holder s) (ent s))
+              else Some (mk (cnt s) (q s) (nextb s) (upd (A s) a (set_pc x Exit)) (Bk s) (holder s) (ent s))
       | CS => Some (mk (cnt s) (q s) (nextb s)
                      (upd (A s) a {| apc := U0; ab := ab x; aw := aw x; actx := RDone; afor := a; aign := aign x; acanc := acanc x |})
                      (Bk s) (holder s) (ent s))
